@@ -34,7 +34,7 @@ ASSUMPTIONS = [
     "failpoints are placed only in callee frames below as_dict/as_obj: no real exception can arise between the plain assignments at the top of these two functions",
     "the slots are read through their name-mangled class attributes",
 ]
-MUST_SEE = ["raised_with_options", "failpoints_fired", "failpoint_nested", "default_after_fault", "bomb_positions", "corrupt_payloads", "option_subsets", "mappings_walked", "explorer_children_checked", "index_sources_checked", "deser_with_options"]
+MUST_SEE = ["raised_with_options", "failpoints_fired", "failpoint_nested", "default_after_fault", "bomb_positions", "corrupt_payloads", "option_subsets", "mappings_walked", "explorer_children_checked", "index_sources_checked", "deser_with_options", "repo_tests_slot_checks"]
 CONFIG = {
     "quick": {"shards": 16, "trees": 16, "subsets": 14, "failpoint_trees": 1, "watchdog_s": 600},
     "thorough": {"shards": 32, "trees": 40, "subsets": 48, "failpoint_trees": 4, "watchdog_s": 3400},
@@ -436,6 +436,28 @@ def run_shard(ctx):
             failpoints(ctx, U, C, root, good, subsets, rng, after_call, do_ser, do_deser, odesc, fp)
         root.detach()
     probe.detach()
+    # second workload: the repository's own tests with a slot contract on as_dict / as_obj
+    if ctx.shard == 0 and ctx.only_case is None:
+        import os
+        import subprocess
+
+        here = os.path.dirname(os.path.dirname(os.path.abspath(__file__)))
+        src = os.environ.get("PYOAK_SRC", "/repo/src")
+        out = os.path.join(os.getcwd(), "c16_contracts.json")
+        env = dict(os.environ)
+        env["PYTHONPATH"] = os.pathsep.join([src, here, os.path.join(here, ".deps")])
+        env["VERIF_CONTRACT_OUT"] = out
+        p = subprocess.run([sys.executable, "-m", "pytest", "-q", "-p", "no:cacheprovider", "-p", "plugins.frame_contracts", "-W", "ignore", "tests"], cwd=os.path.dirname(os.path.abspath(src)), env=env, capture_output=True, text=True, timeout=900)
+        try:
+            res = json.load(open(out))
+        except Exception:  # noqa: BLE001
+            raise RuntimeError("contract run produced no result: " + (p.stdout + p.stderr)[-1200:])
+        ctx.count("repo_tests_slot_checks", res.get("slot_checks", 0))
+        ctx.evaluations += res.get("slot_checks", 0)
+        ctx.extra["repo_tests"] = {"summary": (p.stdout.strip().splitlines() or ["?"])[-1], "slot_checks": res.get("slot_checks", 0)}
+        for v in res["violations"]:
+            if v.get("kind") == "slots":
+                ctx.violation("slots-dirty-in-repo-tests", v["what"], v)
 
 
 def callee_codes(U, extra_classes):
